@@ -39,9 +39,14 @@ def gen_case(rng, transport):
         flags, nrecv = 1, 2
         steps = [S.Step("r", "e", cont=True, val="{6b657074:S%s;,61:D37;}" % b"from the first reply".hex())] + steps
         exp = exp + ("after-continues",)
+    elif rng.random() < 0.25:
+        # a streaming handler that marked the call as continuing, for a client that did not ask for more: the continues-reply is refused
+        # (nothing written), the error that follows must go out as usual
+        flags = 0
+        steps = [S.Step("r", "c", cont=True, val="{6b657074:S%s;}" % b"refused, never written".hex())] + steps
     secs.append(S.script_text(b"a.b.M", steps, False))
     # the same call again from a caller with a typed reply struct (fields a, b, k, method, parameters, interface, parameter of other types than the error carries)
-    ops = ["call %d %s {} %d" % (flags, b"a.b.M".hex(), nrecv)] + (["typedcall %s {}" % b"a.b.M".hex()] if nrecv == 1 else [])
+    ops = ["call %d %s {} %d" % (flags, b"a.b.M".hex(), nrecv)] + (["typedcall %s {}" % b"a.b.M".hex(), "upcall %s {}" % b"a.b.M".hex()] if nrecv == 1 else [])
     return " | ".join(secs + ["transport " + transport] + ops), exp
 
 
@@ -49,7 +54,7 @@ def main(pid, argv):
     ck = V.Check(pid, argv)
     ck.rule = ("cases: a handler calls ReplyError with names from an error-name grammar (dots anywhere, empty parts, unicode, NUL, the reserved namespace "
                "org.varlink.service and near-misses such as org.varlink.servicex.E / org.varlink.service / org.varlink.service.sub.E) x JSON parameter objects "
-               "incl. none, or one of the four standard-error helpers with arbitrary strings; a real client receives the reply, once into a raw out value and once into a typed struct whose field names collide with error parameters. When the error is refused "
+               "incl. none, or one of the four standard-error helpers with arbitrary strings; a real client receives the reply, once into a raw out value, once into a typed struct whose field names collide with error parameters, and once through Connection.Upgrade. When the error is refused "
                "the handler sends a marker reply instead, so the client observes the refusal. distinct = distinct (name, parameters); non-trivial = name contains a dot")
     ck.assumptions = ["names that are not valid UTF-8 are compared with the model only"]
     ck.check_obligations()
@@ -121,6 +126,9 @@ def main(pid, argv):
                 bad = "a caller with a typed reply struct got %s where a caller with a raw one got %s" % (trec[:200], rec[:200])
             if not bad and rec.startswith("ok ") and trec != "ok":
                 bad = "typed caller got %s for the fallback reply" % trec[:200]
+            urec = ops[2].split("ucall=")[1].strip() if len(ops) > 2 and "ucall=" in ops[2] else None
+            if not bad and urec is not None and rec.startswith(("err ", "std ")) and urec != rec:
+                bad = "through Connection.Upgrade the error arrived as %s, through Send as %s" % (urec[:200], rec[:200])
         if bad:
             nf += 1
             ck.fail("e2e-error", line, bad, impl=il[:1200], model=ml[:1200])
